@@ -16,7 +16,7 @@ func init() { props["C18"] = runC18 }
 // C18: a resolver built from a compiled file finds an element exactly when it is defined in the
 // file, in a direct import, or in a file reachable from a direct import through public imports.
 func runC18(h *hx.H) {
-	h.Rule = "inputs: every import graph on 4 (thorough 5) files with edge kind in {none, import, import public} for each pair i<j (3^6 = 729 / 3^10 = 59049 graphs), in two package layouts (one shared package, one package per file); every file defines a message, a nested message, an enum, a service and an extension of google.protobuf.MessageOptions; every file is a viewpoint; oracle: visible(f) = {f} + direct imports + public closure of the direct imports, computed on the graph; FindDescriptorByName (5 element kinds), FindMessageByName, FindExtensionByName, FindExtensionByNumber and FindFileByPath must succeed exactly on visible files; non-trivial = graph with a public edge"
+	h.Rule = "inputs: every import graph on 4 (thorough 5) files with edge kind in {none, import, import public} for each pair i<j (3^6 = 729 / 3^10 = 59049 graphs), in two package layouts (one shared package, one package per file) and two import orders (ascending, descending); every file defines a message, a nested message, an enum, a service and an extension of google.protobuf.MessageOptions; every file is a viewpoint; oracle: visible(f) = {f} + direct imports + public closure of the direct imports, computed on the graph; FindDescriptorByName (5 element kinds), FindMessageByName, FindExtensionByName, FindExtensionByNumber and FindFileByPath must succeed exactly on visible files; non-trivial = graph with a public edge"
 	n := 4
 	if h.Thorough() {
 		n = 5
@@ -26,18 +26,18 @@ func runC18(h *hx.H) {
 	for i := 0; i < pairs; i++ {
 		total *= 3
 	}
-	for layout := 0; layout < 2; layout++ {
+	for layout := 0; layout < 4; layout++ {
 		for code := 0; code < total; code++ {
 			idx, run := h.NextN()
 			if !run {
 				continue
 			}
-			checkVisibility(h, idx, n, code, layout)
+			checkVisibility(h, idx, n, code, layout%2, layout/2)
 		}
 	}
 }
 
-func checkVisibility(h *hx.H, idx int64, n, code, layout int) {
+func checkVisibility(h *hx.H, idx int64, n, code, layout, order int) {
 	h.Eval(1)
 	h.State(1)
 	// decode edges
@@ -68,7 +68,11 @@ func checkVisibility(h *hx.H, idx int64, n, code, layout int) {
 		names[i] = fmt.Sprintf("f%d.proto", i)
 		var b strings.Builder
 		fmt.Fprintf(&b, "syntax = \"proto2\";\npackage %s;\nimport \"google/protobuf/descriptor.proto\";\n", pkg(i))
-		for j := i + 1; j < n; j++ {
+		for k := i + 1; k < n; k++ {
+			j := k
+			if order == 1 {
+				j = n - 1 - (k - i - 1) // the same imports, listed in descending order
+			}
 			switch kind[i][j] {
 			case 1:
 				fmt.Fprintf(&b, "import \"f%d.proto\";\n", j)
@@ -79,7 +83,7 @@ func checkVisibility(h *hx.H, idx int64, n, code, layout int) {
 		fmt.Fprintf(&b, "message M%d { message N%d {} }\nenum E%d { V%d = 0; }\nservice S%d {}\nextend google.protobuf.MessageOptions { optional int32 x%d = %d; }\n", i, i, i, i, i, i, 50000+i)
 		fs[names[i]] = b.String()
 	}
-	desc := fmt.Sprintf("graph %d/%d layout %d", code, n, layout)
+	desc := fmt.Sprintf("graph %d/%d layout %d import-order %d", code, n, layout, order)
 	fail := func(sig, format string, args ...any) {
 		h.Violate(sig, hx.CaseID(idx), desc+": "+fmt.Sprintf(format, args...), map[string]any{"files": fs.String()})
 	}
